@@ -7,6 +7,7 @@ From TP Require Import Model.Prelude Extracted Model.Collection Proofs.C04Proofs
 (** every path out of ToxicLink.RemoveToxic drops the removed toxic's stub (extracted from link.go) *)
 Theorem C04_remove_always_splices : remove_always_splices = true.
 Proof. reflexivity. Qed.
+Print Assumptions C04_remove_always_splices.
 
 (** over every history of add / update / remove (from any position, any name re-use) and of
     connections starting, ending and having their stream end at any stub, with any subset of links
@@ -14,16 +15,19 @@ Proof. reflexivity. Qed.
     connection belongs to the toxic listed at position i *)
 Theorem C04_aligned : forall ops, aligned (crun ops).
 Proof. exact (run_aligned C04_remove_always_splices). Qed.
+Print Assumptions C04_aligned.
 
 (** a connection established after the history is built from the listed chain itself *)
 Theorem C04_new_connection : forall c,
   nth_error (c_links (cstep c OLinkStart)) (length (c_links c)) = Some (map (fun n => mkCStub n false) (c_chain c)).
 Proof. intros c. simpl. rewrite nth_error_app2 by lia. now rewrite Nat.sub_diag. Qed.
+Print Assumptions C04_new_connection.
 
 (** the index under which an operation addresses a toxic is its position in the listed chain *)
 Theorem C04_index_is_position : forall name l i k,
   index_of name l i = Some k -> (i <= k)%nat /\ nth_error l (k - i) = Some name.
 Proof. exact index_of_nth. Qed.
+Print Assumptions C04_index_is_position.
 
 (** regression witness for the repaired defect F4: without the splice on the early-return paths
     the second toxic's stub ends up at the wrong position *)
@@ -31,9 +35,11 @@ Theorem C04_aligned_refuted_pinned :
   let c := fold_left cstep_pinned [OLinkStart; OAdd "a"; OAdd "b"; OCloseFrom 0 0; ORemove "a" [true]]%string coll_init in
   ~ aligned c.
 Proof. exact aligned_refuted_pinned. Qed.
+Print Assumptions C04_aligned_refuted_pinned.
 
 (** regenerated from link.go on every run: a link leaves the collection only from write(), after the
     destination was closed - so a connection whose sender has closed but whose data or close is
     still held by a toxic is still reached by every chain operation *)
 Theorem C04_links_stay_registered_until_written : link_unregistered_only_by_writer = true.
 Proof. reflexivity. Qed.
+Print Assumptions C04_links_stay_registered_until_written.
